@@ -77,8 +77,11 @@ def _check_logic(task):
                 _verif.reset(0)
                 tab = Tableau(L)
                 b = tab.branch()
+                as_mapping = out['evals'] % 2 == 0
                 for (which, d), w in zip(sub, wp):
-                    b.append(sdwnode(s if which == 's' else ~s, d, w))
+                    node = sdwnode(s if which == 's' else ~s, d, w)
+                    # the branch API accepts a node object or a plain mapping; exercise both
+                    b.append(dict(node) if as_mapping else node)
                 label = f"{cname_}|{','.join(cname(c) + ('' if w is None else '@' + str(w)) for c, w in zip(sub, wp)) or '-'}"
                 def viol(kind, what):
                     out['viol'].append(dict(sig=f'{name}|{label}|{kind}'.replace(' ', ''), what=f'{name}: literals [{label}]: {what}',
@@ -129,6 +132,12 @@ def _check_logic(task):
                 ('a=b', G.Predicated(G.Predicate.Identity, (a, b2)), False),
                 ('~a=b', ~G.Predicated(G.Predicate.Identity, (a, b2)), False)]
         maxlen = 4 if tier == 'quick' else 6
+        # the same constant obtained before and after the bounded construction cache has turned over
+        a_early = G.Constant(0, 0)
+        _junk = [G.Atomic(i % 5, 200 + i // 5) for i in range(1200)]
+        a_late = G.Constant(0, 0)
+        del _junk
+        lits.append(('~a=a(stale)', ~G.Predicated(G.Predicate.Identity, (a_early, a_late)), True))
         for sub in ordered_subsets(lits, maxlen):
             for w in ((0, 1) if modal else (None,)):
                 out['evals'] += 1
@@ -179,7 +188,7 @@ def run(ctx):
         distinct_nontrivial=sum(r['distinct'] for r in res),
         rule=('every logic x carrier (atom, predication, uninterpreted sentence) x every ordered subset of the literal constraints '
               'x world placements (' + ('three patterns' if ctx.quick else 'all 0/1 placements') + ' in modal logics); classical family: ordered subsets '
-              'of 6 identity/existence literals up to length ' + ('4' if ctx.quick else '6') + '; distinct = literal sets built'),
+              'of 7 identity/existence literals (one built from a constant obtained before and after cache eviction) up to length ' + ('4' if ctx.quick else '6') + '; distinct = literal sets built'),
         closed_branches=sum(r['closed'] for r in res), open_branches=sum(r['open'] for r in res),
         logics=len(names), exhaustive=True,
         samples=[r['sample'] for r in res if r['sample']][:6])
